@@ -84,6 +84,9 @@ Definition legalb (k : nat) (out : list stmt) : bool :=
 (* ---- statements covered by the pass2 simulation proof (RwCorrect.v) ---- *)
 Definition init_ok (i : option stmt) : bool :=
   match i with None => true | Some (SAtom _) => true | _ => false end.
+(* init statements of for / switch may also be a Yield (the rewriter hoists them in front) *)
+Definition init_ok2 (i : option stmt) : bool :=
+  match i with None => true | Some (SAtom _) | Some (SYield _) => true | _ => false end.
 Definition is_if (s : stmt) : bool := match s with SIf _ _ _ _ => true | _ => false end.
 
 (* a case body the proof covers: supported statements that never leave the clause by break
@@ -104,8 +107,8 @@ Fixpoint supp (k : nat) (s : stmt) {struct k} : bool :=
         | EElse b => forallb (supp k) b
         | EElif x => is_if x && supp k x
         end
-    | SFor i c p b => init_ok i && init_ok p && forallb (supp k) b
-    | SSwitch i t cs => init_ok i && forallb (fun lb => clause_ok (supp k) k (snd lb)) cs
+    | SFor i c p b => init_ok2 i && init_ok p && forallb (supp k) b
+    | SSwitch i t cs => init_ok2 i && forallb (fun lb => clause_ok (supp k) k (snd lb)) cs
     | _ => false
     end
   end.
